@@ -41,14 +41,14 @@ def run(seed, prop):
 
 def main():
     seeds = sys.argv[1:] or sorted(d for d in os.listdir(f"{ROOT}/seeded") if os.path.isdir(f"{ROOT}/seeded/{d}"))
-    path = f"{ROOT}/seeded/results.json"
-    res = json.load(open(path)) if os.path.exists(path) else {}
+    path = os.environ.get("SEED_RESULTS", f"{ROOT}/seeded/results.json")    # (first runs of fresh seeds are also kept in results_round3_first_run.json)
     for s in seeds:
         prop = s.split("-")[0]
         out = {}
         for p in [prop] + EXTRA.get(s, []):
             out[p] = run(s, p)
             print(s, p, out[p]["outcome"], out[p].get("obligations", [])[:2], flush=True)
+        res = json.load(open(path)) if os.path.exists(path) else {}          # re-read: several matrix runs may be in flight
         res[s] = out
         json.dump(res, open(path, "w"), indent=1, sort_keys=True)
 
